@@ -1312,7 +1312,7 @@ func runCanaries() {
 			{"ins", "61ff007f7f", "7f7f"}, {"ins", "7f618000", "6162"}, {"ins", "", "ffff61"}, {"commit", "", ""},
 			{"rem", "7f618000", ""}, {"commit", "", ""},
 		}},
-		{"value-cache-wrong-root", lab.BackendBadger, 0, 200, 1000, false, true, false, []canaryStep{
+		{"value-cache-wrong-root", lab.BackendBadger, 0, 150, 1000, false, true, false, []canaryStep{
 			{"ins", "7fff018001", "61"}, {"ins", "00", ""}, {"commit", "", ""},
 			{"ins", "0080", "62"}, {"rem", "7f000080ff", ""}, {"commit", "", ""},
 		}},
